@@ -442,6 +442,25 @@ func engineCrashWrite(ctx *Ctx) {
 					}
 				}
 			}
+			// flavour: every attempt to move a file into place is refused (a volume that accepts writes but no more directory
+			// updates, a stale network handle): however the program goes on from there, the file holds its previous content or the new one
+			for _, errno := range []string{"ENOSPC", "EIO", "EPERM", "EXDEV", "EBUSY", "ESTALE", "EDQUOT"} {
+				if !mine() {
+					continue
+				}
+				cs := map[string]interface{}{"op": op.Name, "state": st.Name, "flavour": "every-rename-fails", "errno": errno, "new_len": L, "old_len": len(old)}
+				ctx.R.Begin(cs)
+				ctx.R.Eval(1)
+				st.prepare(h)
+				argv := []string{"strace", "-f", "-qq", "-o", "/dev/null", "-e", "trace=rename,renameat,renameat2,link,linkat", "-e", "inject=rename,renameat,renameat2,link,linkat:error=" + errno, ctx.Wtf}
+				res := h.RunCmd(60*time.Second, c09Env, append(argv, op.Args...)...)
+				if bad, why := res.Crashed(); bad {
+					ctx.R.Violate(vlib.Violation{Property: "C09", Clause: "crash-on-write-failure", Path: op.Name + "/rename-fails", Detail: why, Witness: map[string]interface{}{"case": cs, "stderr": vlib.Trunc(res.Stderr, 1500)}})
+				}
+				ctx.R.Nontriv(op.Name, st.Name, "rename-fails", errno)
+				ctx.R.Path("faults-every-rename-refused", 1)
+				verdict(cs, "rename-fails", res)
+			}
 			ctx.R.Sample(map[string]interface{}{"op": op.Name, "state": st.Name, "new_len": L, "syscalls_fault_free": fmt.Sprint(maxCalls[-1]), "k_values": len(ks)})
 		}
 	}
@@ -570,6 +589,11 @@ func c09AfterEarlierWrites(ctx *Ctx, h *Home, mainP string, mine func() bool) {
 			{"save", []string{"save", "--", "echo first-today", "the first command saved today"}, "notebook", "saved successfully"},
 			{"save", []string{"save", "--keywords=two", "--", "echo second-today | sort", "the second command saved today"}, "notebook", "saved successfully"}},
 			c09Op{"save", []string{"save", "--", "echo third-today", "the third command saved today, the one whose write goes wrong"}, "notebook", "saved successfully"}},
+		// a pipeline saved under a name, something else, then a pipeline saved under the same name with another command
+		{"notebook", []c09Op{
+			{"save-pipeline", []string{"save-pipeline", "--", "my-pipe", "cat access.log | sort"}, "notebook", "saved successfully"},
+			{"save", []string{"save", "--", "echo in-between", "saved between the two pipelines"}, "notebook", "saved successfully"}},
+			c09Op{"save-pipeline", []string{"save-pipeline", "--", "my-pipe", "cat access.log | sort | uniq -c | head"}, "notebook", "saved successfully"}},
 		{"history", []c09Op{
 			{"search", []string{"--database", mainP, "--all-platforms", "--", "compress directory"}, "history", ""},
 			{"search", []string{"--database", mainP, "--all-platforms", "--", "list directory"}, "history", ""}},
